@@ -106,7 +106,7 @@ def module_file(module):
 def locate(name):
     """qualified name -> (module, file, FunctionDef, owner class or None).  The module is the longest
     prefix that is a file under /repo; the rest is a path of nested class / def names."""
-    parts = name.split(".")
+    parts = name.split("@")[0].split(".")   # "qualified.name@variant": several contracts for one function
     for cut in range(len(parts) - 1, 0, -1):
         mod = ".".join(parts[:cut])
         f = module_file(mod)
@@ -146,7 +146,7 @@ def locate(name):
 # discharge
 # ------------------------------------------------------------------------------------------------
 RLIMIT = int(os.environ.get("PYVC_RLIMIT", "40000000"))
-TIMEOUT_MS = int(os.environ.get("PYVC_TIMEOUT_MS", "25000"))
+TIMEOUT_MS = int(os.environ.get("PYVC_TIMEOUT_MS", "300000"))
 
 
 def to_smt2(hyps, goal, axioms):
@@ -209,7 +209,7 @@ def solve_smt2(args):
         out["reason"] = f"z3 python api: {ex}"
     if out["status"] == "unknown" and tmo >= TIMEOUT_MS:
         # other back ends on the dumped query; only `unsat` is taken from them
-        for label, cmd in (("cvc5-1.0.3", ["/usr/bin/cvc5", "--strings-exp", "--tlimit=12000"]),
+        for label, cmd in (("cvc5-1.0.3", ["/usr/bin/cvc5", "--strings-exp", "--tlimit=20000"]),
                            ("z3-4.8.12", ["/usr/bin/z3", "-T:10"])):
             try:
                 with tempfile.NamedTemporaryFile("w", suffix=".smt2", delete=False) as f:
@@ -217,7 +217,7 @@ def solve_smt2(args):
                     if "(check-sat)" not in smt2:
                         f.write("\n(check-sat)\n")
                     fn = f.name
-                p = subprocess.run(cmd + [fn], capture_output=True, text=True, timeout=20)
+                p = subprocess.run(cmd + [fn], capture_output=True, text=True, timeout=40)
                 os.unlink(fn)
                 ans = p.stdout.strip().splitlines()[0] if p.stdout.strip() else ""
                 if ans == "unsat":
@@ -516,7 +516,7 @@ def attach_companion_witnesses(pres, comp):
     keep = []
     for u in pres["undecided"]:
         fn = next((f for f in pres.get("unreached", []) if f in u), None)
-        short = ".".join(fn.split(".")[-2:]) if fn else None
+        short = ".".join(fn.split("@")[0].split(".")[-2:]) if fn else None
         if fn and short in covers and short not in failing:
             pres.setdefault("covered_by_bounded", []).append(u)
         else:
@@ -527,7 +527,7 @@ def attach_companion_witnesses(pres, comp):
         byfn.setdefault(vv[0].replace("companion.", ""), []).append(vv)
     for v in pres["violations"]:
         fn = v.key.get("function", "")
-        short = ".".join(fn.split(".")[-2:])
+        short = ".".join(fn.split("@")[0].split(".")[-2:])
         hits = byfn.get(short) or []
         if hits and not v.found_input:
             v.found_input = True
